@@ -1,7 +1,14 @@
 #!/bin/bash
-# tools/run_seed.sh CNN [worktree]  -- run the quick check of CNN against a seeded worktree, log to /tmp/seedrun_CNN.log
-P=$1; WT=${2:-/tmp/seed_$P}
+# tools/run_seed.sh CNN [tier] -- bring the seeded worktree /tmp/seed_CNN to /repo's current HEAD + the seeded change, run the
+# check of CNN against it, log to /tmp/seedrun_CNN.log
+P=$1; TIER=${2:-quick}; WT=/tmp/seed_$P; LOG=/tmp/seedrun_$P.log
+PATCH=$WT/seed_out/patch.diff; [ -f $PATCH ] || PATCH=/verif/seeded/$P/patch.diff
 cd /verif
-( cd $WT && git diff --stat -- luna | tail -3 ) > /tmp/seedrun_$P.log 2>&1
-VERIF_REPO=$WT VERIF_JOBS=${VERIF_JOBS:-4} nice -n -5 timeout 3000 ./check $P --tier quick --no-evidence >> /tmp/seedrun_$P.log 2>&1
-echo "SEED-RESULT $P exit=$?" >> /tmp/seedrun_$P.log
+{
+  HEAD=$(git -C /repo rev-parse HEAD)
+  if [ ! -d $WT ]; then git -C /repo worktree add --detach $WT $HEAD >/dev/null 2>&1; else
+    ( cd $WT && git checkout -q -- luna && git checkout -q --detach $HEAD ); fi
+  ( cd $WT && { git apply $PATCH || git apply --3way $PATCH; } && git diff --stat -- luna | tail -2 ) || echo "SEED-PATCH-DOES-NOT-APPLY $P"
+} > $LOG 2>&1
+VERIF_REPO=$WT VERIF_JOBS=${VERIF_JOBS:-4} timeout 3600 ./check $P --tier $TIER --no-evidence >> $LOG 2>&1
+echo "SEED-RESULT $P exit=$?" >> $LOG
